@@ -204,7 +204,8 @@ StringDictionaryHASHHF::StringDictionaryHASHHF(IteratorDictString *it, uint len,
 
             // The next string has fully read!
             if (symbol == 0) {
-              if (((ptrSubstr + (8 - offset)) <= TABLEBITSO)) {
+              if (((ptrSubstr + (8 - offset)) <= TABLEBITSO) &&
+                  ((current + 1) < elements)) {
                 // The next string must be parsed...
                 codeSubstr = (codeSubstr << (8 - offset));
                 ptrSubstr += (8 - offset);
